@@ -85,6 +85,14 @@ func (f *Frame) settle(ai AInt) AInt {
 	return AInt{a: ai.a}
 }
 
+// divAff: floor(a/c) as an affine form (constant-folded when a is constant).
+func (f *Frame) divAff(a Aff, c int64) Aff {
+	if a.isConst() {
+		return affConst(floorDiv(a.c, c))
+	}
+	return affSym(f.divSym(a, c))
+}
+
 func (f *Frame) divSym(a Aff, c int64) *Sym {
 	lo, hi := a.interval()
 	if lo < 0 {
@@ -106,6 +114,9 @@ func (f *Frame) ceilDivSym(a Aff, c int64) *Sym {
 
 // modAff returns a mod c as the affine form a - c*floor(a/c).
 func (f *Frame) modAff(a Aff, c int64) Aff {
+	if a.isConst() {
+		return affConst(a.c - c*floorDiv(a.c, c))
+	}
 	return a.sub(affSym(f.divSym(a, c)).scale(c))
 }
 
@@ -798,6 +809,24 @@ func (ch *Frame) bindMergedIn(caller *Frame, merged, incoming AV, st DNF) DNF {
 // resolving them through the recorded writes: exactly one write must cover the bytes and
 // every other write must be provably disjoint (under the facts in force).
 func (f *Frame) readFresh(root *Root, abs Aff, n int, be bool) (AV, bool) {
+	if v, ok := f.readFresh1(root, abs, n, be); ok {
+		return v, true
+	}
+	// unresolved: the bytes are whatever the buffer holds after the writes seen so far; two
+	// reads of the same location with no write in between see the same content
+	var a Aff
+	for i := 0; i < n; i++ {
+		b := f.an.u.sym(fmt.Sprintf("%s[%s]#%d", root.key, abs.addc(int64(i)).String(), len(root.writes)), 0, 255)
+		sh := uint(8 * (n - 1 - i))
+		if !be {
+			sh = uint(8 * i)
+		}
+		a = a.add(affSym(b).scale(1 << sh))
+	}
+	return AInt{a: a}, true
+}
+
+func (f *Frame) readFresh1(root *Root, abs Aff, n int, be bool) (AV, bool) {
 	st := f.state()
 	if len(st) == 0 {
 		return nil, false
@@ -861,7 +890,7 @@ func (f *Frame) readFresh(root *Root, abs Aff, n int, be bool) (AV, bool) {
 			if sh == 0 {
 				b = f.modAff(val, 256)
 			} else {
-				b = f.modAff(affSym(f.divSym(val, 1<<sh)), 256)
+				b = f.modAff(f.divAff(val, 1<<sh), 256)
 			}
 			osh := uint(8 * (n - 1 - i))
 			if !be {
